@@ -2,6 +2,7 @@ package srv
 
 import (
 	"context"
+	"time"
 
 	"github.com/Factom-Asset-Tokens/factom"
 	"github.com/pegnet/pegnetd/fat/fat2"
@@ -86,6 +87,64 @@ func VerifAPIIsolation() {
 	u0, x0 := first[fat2.PTickerUSD], first[fat2.PTickerXBT]
 	_ = d3.GetPegNetRateAverages(ctx, syncHeight)
 	vrt.Assert("C18.returned-averages-are-not-rewritten-by-later-calls", first[fat2.PTickerUSD] == u0 && first[fat2.PTickerXBT] == x0)
+	// ---- (c) whatever the read API was asked, it leaves nothing behind that stops the sync loop:
+	// after any request - found or not found - the next block must still commit (in SQLite's
+	// default journal mode a read transaction or cursor left open keeps a SHARED lock, and COMMIT fails)
+	var H factom.Bytes32
+	for i := range H {
+		H[i] = 0x77
+	}
+	txh, err := db.Begin()
+	if err != nil {
+		panic(err)
+	}
+	var burn factom.FactoidTransaction
+	burn.TransactionID = &H
+	burn.TimestampSalt = time.Unix(1600000100, 0)
+	var bin factom.FactoidTransactionIO
+	bin.Amount = 5
+	copy(bin.Address[:], A[:])
+	burn.FCTInputs = []factom.FactoidTransactionIO{bin}
+	var FB factom.Bytes32
+	FB[0] = 0x99
+	if err := p.InsertFCTBurn(txh, &FB, burn, 10); err != nil {
+		panic(err)
+	}
+	if err := txh.Commit(); err != nil {
+		panic(err)
+	}
+	var none factom.Bytes32
+	var opts pegnet.HistoryQueryOptions
+	switch vrt.Choose("request", 9) {
+	case 0:
+		_, _, _ = p.SelectTransactionHistoryActionsByHeight(10, opts) // finds the burn
+	case 1:
+		_, _, _ = p.SelectTransactionHistoryActionsByHeight(11, opts) // finds nothing
+	case 2:
+		_, _, _ = p.SelectTransactionHistoryActionsByHash(&none, opts)
+	case 3:
+		_, _, _ = p.SelectTransactionHistoryActionsByHash(&H, opts)
+	case 4:
+		_, _, _ = p.SelectTransactionHistoryActionsByAddress(&A, opts)
+	case 5:
+		var B factom.FAAddress
+		_, _, _ = p.SelectTransactionHistoryActionsByAddress(&B, opts)
+	case 6:
+		_, _, _ = p.SelectTransactionHistoryStatus(&none)
+	case 7:
+		_, _ = p.SelectBalances(&A)
+		_, _ = p.SelectIssuances()
+	case 8:
+		_ = s.getGlobalRichList(ctx, nil)
+		_, _ = p.SelectRichList(fat2.PTickerUSD, 10)
+	}
+	txb, err := db.Begin()
+	if err != nil {
+		panic(err)
+	}
+	_, werr := p.AddToBalance(txb, &A, fat2.PTickerUSD, 1)
+	cerr := txb.Commit()
+	vrt.Assert("C18.next-block-commits-after-any-api-request", werr == nil && cerr == nil)
 	vrt.Cover("ran")
 	vrt.Assert("C18.no-data-race-between-api-and-sync", vrt.Races() == 0)
 }
